@@ -70,6 +70,29 @@ def run(chk, replay=None):
                 got = so[so.find(marker) + len(marker):-1] if marker in so else None
                 if rc != 0 or got != s.encode('utf-8'):
                     chk.violate('decrypt does not return the original string', {'plaintext': s[:100], 'ciphertext': ct[:80], 'rc': rc, 'got': (got or b'')[:100].decode('utf-8', 'replace')}, tags=['roundtrip'])
+            # the output of this run fed through `redact --encrypt` again with the same key: its sensitive strings are now ciphertexts made with
+            # this very key; each must come out as a ciphertext that decrypts to exactly the string that went in (the first-pass ciphertext)
+            if ki == 0:
+                outp2 = os.path.join(d, 'out%d.second.log' % ki)
+                p2 = subprocess.run([CLI, 'redact', outp, '-o', outp2, '-y', '-q', keyf], stdin=subprocess.DEVNULL, capture_output=True)
+                out2 = open(outp2, 'rb').read().split(b'\n')[:-1] if os.path.exists(outp2) else []
+                pairs2 = []
+                for (s, ct1), ol1, ol2 in zip(cts, outl, out2):
+                    t1, t2 = jtree.parse(ol1), jtree.parse(ol2)
+                    if t1 is None or t2 is None: continue
+                    d2 = [b[3] for a, b in zip(jtree.leaves(t1), jtree.leaves(t2)) if a[3] == ct1]
+                    if len(d2) == 1: pairs2.append((ct1, d2[0]))
+                if p2.returncode != 0 or len(pairs2) < len(cts) // 2:
+                    chk.violate('second pass over the encrypted output failed or lost lines', {'rc': p2.returncode, 'lines': len(out2), 'stderr': p2.stderr.decode('utf-8', 'replace')[-200:]}, tags=['cli', 'secondpass'])
+                with ThreadPoolExecutor(max_workers=16) as ex:
+                    res2 = list(ex.map(lambda sc: dec(sc[1]), pairs2[:60]))
+                for (ct1, ct2), (rc, so) in zip(pairs2[:60], res2):
+                    chk.count(); chk.nontriv((ki, 'second', ct1))
+                    marker = b'Raw value: '
+                    got = so[so.find(marker) + len(marker):-1] if marker in so else None
+                    if rc != 0 or got != ct1.encode('utf-8'):
+                        chk.violate('a string that is itself a ciphertext of this key does not round-trip (second pass)', {'input_string': ct1[:80], 'emitted': str(ct2)[:80], 'rc': rc, 'decrypts_to': (got or b'')[:100].decode('utf-8', 'replace')}, tags=['roundtrip', 'secondpass'])
+                chk.streams.append({'stream': 'second `redact --encrypt` pass over the first pass output, then decrypt', 'strings': len(pairs2[:60])})
             # corruptions / truncations / wrong key
             victims = [c for c in cts if c[0] in ('', 'secret', 'héllo wörld')] + cts[5:8]
             bad = []
